@@ -261,6 +261,73 @@ fn solve_once(solver: &mut Solver<Uni>, prob: &Value, want_dump: bool) -> Value 
     out
 }
 
+/// verdict + solution only (used for the snapshot provider, C16)
+fn solve_simple<D: DependencyProvider>(solver: &mut Solver<D>, prob: &Value) -> Value {
+    let reqs: Vec<Requirement> = prob["req"].as_array().unwrap().iter().map(req_of).collect();
+    let cons: Vec<VersionSetId> = u32s(&prob["con"]).into_iter().map(VersionSetId).collect();
+    let problem = Problem::new().requirements(reqs).constraints(cons);
+    let r = std::panic::catch_unwind(std::panic::AssertUnwindSafe(|| solver.solve(problem)));
+    match r {
+        Err(p) => {
+            let msg = p.downcast_ref::<String>().cloned().or_else(|| p.downcast_ref::<&str>().map(|s| s.to_string()));
+            json!({"result": "panic", "message": msg.unwrap_or_default()})
+        }
+        Ok(Ok(sol)) => json!({"result": "ok", "solution": sol.iter().map(|s| s.0).collect::<Vec<_>>()}),
+        Ok(Err(UnsolvableOrCancelled::Cancelled(_))) => json!({"result": "cancelled"}),
+        Ok(Err(UnsolvableOrCancelled::Unsolvable(_))) => json!({"result": "unsolvable"}),
+    }
+}
+
+/// C16: capture the universe into a DependencySnapshot, solve through it, round-trip it through JSON, solve again.
+fn snapshot_solves(v: &Value, prob: &Value) -> Value {
+    let r = std::panic::catch_unwind(std::panic::AssertUnwindSafe(|| {
+        let uni = Uni::from_json(v);
+        let mut vsets: Vec<VersionSetId> = Vec::new();
+        for r in prob["req"].as_array().unwrap() {
+            if let Requirement::Single(vs) = req_of(r) {
+                vsets.push(vs);
+            }
+        }
+        vsets.extend(u32s(&prob["con"]).into_iter().map(VersionSetId));
+        let snap = match resolvo::snapshot::DependencySnapshot::from_provider(uni, [], vsets, []) {
+            Ok(s) => s,
+            Err(_) => return json!({"error": "capture was cancelled"}),
+        };
+        let direct = {
+            let mut solver = Solver::new(snap.provider());
+            solve_simple(&mut solver, prob)
+        };
+        let text = serde_json::to_string(&snap).unwrap();
+        let back: resolvo::snapshot::DependencySnapshot = serde_json::from_str(&text).unwrap();
+        let roundtrip = {
+            let mut solver = Solver::new(back.provider());
+            solve_simple(&mut solver, prob)
+        };
+        // an added requirement must get a fresh id and leave every captured version set resolvable
+        let mut prov = snap.provider();
+        let captured: Vec<u32> = snap.version_sets.iter().map(|(id, _)| id.0).collect();
+        // add a requirement on a captured package (the package of the first captured version set)
+        let mut fresh = None;
+        let mut names_ok = true;
+        if let Some((_, first)) = snap.version_sets.iter().next() {
+            fresh = Some(prov.add_package_requirement(first.name, "added").0);
+            names_ok = captured.iter().all(|&id| {
+                let a = snap.version_sets.get(VersionSetId(id)).map(|v| v.name);
+                a == Some(prov.version_set_name(VersionSetId(id)))
+            });
+        }
+        json!({"direct": direct, "roundtrip": roundtrip, "json_len": text.len(), "fresh_id": fresh,
+               "captured_version_sets": captured, "captured_resolve_after_add": names_ok})
+    }));
+    match r {
+        Ok(v) => v,
+        Err(p) => {
+            let msg = p.downcast_ref::<String>().cloned().or_else(|| p.downcast_ref::<&str>().map(|s| s.to_string()));
+            json!({"panic": msg.unwrap_or_default()})
+        }
+    }
+}
+
 fn main() {
     std::panic::set_hook(Box::new(|_| {}));
     let stdin = std::io::stdin();
@@ -284,7 +351,10 @@ fn main() {
         for p in &problems {
             outs.push(solve_once(&mut solver, p, want_dump));
         }
-        let out = json!({"id": v["id"], "solves": outs});
+        let mut out = json!({"id": v["id"], "solves": outs});
+        if v["snapshot"].as_bool().unwrap_or(false) {
+            out["snapshot"] = snapshot_solves(&v, &problems[0]);
+        }
         writeln!(w, "{}", out).unwrap();
         w.flush().unwrap();
     }
